@@ -6,11 +6,12 @@ Open Scope N_scope.
 
 (* booleans over N comparisons: case-split every comparison, then lia *)
 Ltac nsplit :=
-  repeat match goal with
-  | |- context [N.leb ?a ?b] => destruct (N.leb_spec a b)
-  | |- context [N.ltb ?a ?b] => destruct (N.ltb_spec a b)
-  | |- context [N.eqb ?a ?b] => destruct (N.eqb_spec a b)
-  end; simpl; try reflexivity; try lia.
+  cbn [andb orb negb]; first [ reflexivity | exfalso; lia |
+  match goal with
+  | |- context [N.leb ?a ?b] => destruct (N.leb_spec a b); nsplit
+  | |- context [N.ltb ?a ?b] => destruct (N.ltb_spec a b); nsplit
+  | |- context [N.eqb ?a ?b] => destruct (N.eqb_spec a b); nsplit
+  end | idtac ].
 
 (* ---------------------------------------------------------------- C. a complete prune *)
 (* keep composed with one more complete sweep o -> e is keep e: this is the whole content of
